@@ -224,6 +224,9 @@ def run_tlc(ctx, spec, cfg, name=None, workers=8, timeout=600, simulate=None, de
     m = re.search(r"Invariant (\S+) is violated", out)
     if m:
         res["violated"] = m.group(1)
+    m3 = re.search(r"Temporal property (\S+) was violated", out)
+    if not res["violated"] and m3:
+        res["violated"] = m3.group(1)
     m2 = re.search(r"(?:Temporal properties were violated|Action property (\S+) is violated|"
                    r"Assumption .* is false|Deadlock reached|"
                    r"The postcondition (\S+)? ?(?:is|was) (?:violated|false))", out)
